@@ -21,8 +21,8 @@ class P(vlib.Prop):
     )
     level_text = ("c06_extract_walk: for every tree of directories, regular files, symlinks and character devices with distinct child names (any depth, any "
                   "names, any mode bits incl. setuid/setgid/sticky, any uid/gid, any xattrs on files and directories, any mtime) the reference extractor "
-                  "applied to the model's walk returns exactly the tree; c06_walk_complete_nodup: the walk lists every path exactly once in strictly "
-                  "increasing component-wise bytewise order (a directory before its contents); c06_names: Uname/Gname follow passwd/group; c06_digest over "
+                  "applied to the model's walk returns exactly the tree; c06_walk_complete_nodup: the walk's paths are strictly "
+                  "increasing in component-wise bytewise order, hence each listed once, siblings sorted, a directory before its contents (that every path is listed follows inside the envelope from c06_extract_walk); c06_names: Uname/Gname follow passwd/group; c06_digest over "
                   "oracles; c06_validator_decides: the validator run on the implementation's layers decides the readable statement. The full statement is "
                   "refuted for hard links (C06-F1, C06-F2), sub-second mtimes (C06-F3) and xattrs on character devices (C06-F4), each with a witness replayed "
                   "on the real code. The model is tied to walkFS/writeTar by differential comparison of headers and of independently untarred layer entries.")
